@@ -154,7 +154,7 @@ def jobs(tier, seed):
     return out
 
 
-BUDGET = {"quick": None, "thorough": 22 * 60}
+BUDGET = {"quick": None, "thorough": 12 * 60}
 
 if __name__ == "__main__":
     from symx import runner
